@@ -319,9 +319,79 @@ fn gen_op(rng: &mut Rng, m: &CMap2<f64>, mask: u32, wild_pct: u64, fault_pct: u6
     }
 }
 
+// ------------------------------------------------------------------ parsing cases back (replay)
+
+fn ftok_parse(t: &str) -> f64 {
+    f64::from_bits(u64::from_str_radix(&t[1..], 16).unwrap())
+}
+
+fn parse_call(t: &[&str], i: &mut usize) -> Call {
+    let u = |j: usize| -> u32 { t[j].parse::<i64>().unwrap() as u32 };
+    let c = u(*i);
+    let (call, len) = match c {
+        1 => (Call::Link1(u(*i + 1), u(*i + 2)), 3),
+        2 => (Call::Link2(u(*i + 1), u(*i + 2)), 3),
+        3 => (Call::Unlink1(u(*i + 1)), 2),
+        4 => (Call::Unlink2(u(*i + 1)), 2),
+        5 => (Call::Sew1(u(*i + 1), u(*i + 2)), 3),
+        6 => (Call::Sew2(u(*i + 1), u(*i + 2)), 3),
+        7 => (Call::Unsew1(u(*i + 1)), 2),
+        8 => (Call::Unsew2(u(*i + 1)), 2),
+        9 => (Call::WriteVertex(u(*i + 1), ftok_parse(t[*i + 2]), ftok_parse(t[*i + 3])), 4),
+        10 => (Call::RemoveVertex(u(*i + 1)), 2),
+        11 => (Call::WriteAttr(u(*i + 1), u(*i + 2), u(*i + 3)), 4),
+        12 => (Call::RemoveAttr(u(*i + 1), u(*i + 2)), 3),
+        13 => (Call::RemoveDartTx(u(*i + 1)), 2),
+        _ => panic!("bad call token"),
+    };
+    *i += len;
+    call
+}
+
+fn parse_ops(t: &[&str]) -> Vec<Op> {
+    let mut i = 0;
+    let mut v = Vec::new();
+    while i < t.len() {
+        let c: u32 = t[i].parse().unwrap();
+        i += 1;
+        match c {
+            1 => v.push(Op::AddDart),
+            2 => {
+                v.push(Op::AddDarts(t[i].parse().unwrap()));
+                i += 1;
+            }
+            3 => v.push(Op::InsertDart),
+            4 => {
+                v.push(Op::RemoveDart(t[i].parse().unwrap()));
+                i += 1;
+            }
+            5 => {
+                let fa: i64 = t[i].parse().unwrap();
+                i += 1;
+                let c = parse_call(t, &mut i);
+                v.push(Op::Force(if fa < 0 { None } else { Some(fa as u64) }, c));
+            }
+            6 => {
+                let fa: i64 = t[i].parse().unwrap();
+                let m: usize = t[i + 1].parse().unwrap();
+                i += 2;
+                let cs = (0..m).map(|_| parse_call(t, &mut i)).collect();
+                v.push(Op::Block(if fa < 0 { None } else { Some(fa as u64) }, cs));
+            }
+            7 => {
+                v.push(Op::Obs(t[i] != "0"));
+                i += 1;
+            }
+            _ => panic!("bad op token"),
+        }
+    }
+    v
+}
+
 struct Out {
     cases: std::io::BufWriter<std::fs::File>,
     obs: std::io::BufWriter<std::fs::File>,
+    ops: std::io::BufWriter<std::fs::File>,
 }
 
 fn run_case(id: &str, mask: u32, n0: u32, ops: &mut dyn FnMut(&CMap2<f64>, usize) -> Option<Op>, out: &mut Out) {
@@ -339,7 +409,9 @@ fn run_case(id: &str, mask: u32, n0: u32, ops: &mut dyn FnMut(&CMap2<f64>, usize
         op_toks(&o, &mut case);
         if let Op::Obs(b) = o {
             observing = b;
-            continue;
+            if !b {
+                continue;
+            }
         }
         let r = exec(&mut m, &o);
         if observing {
@@ -348,6 +420,10 @@ fn run_case(id: &str, mask: u32, n0: u32, ops: &mut dyn FnMut(&CMap2<f64>, usize
             write!(line, "{id} {k} {}", r.toks()).unwrap();
             dump2(&m, mask, &mut line);
             writeln!(out.obs, "{line}").unwrap();
+            line.clear();
+            write!(line, "{id} {k}").unwrap();
+            op_toks(&o, &mut line);
+            writeln!(out.ops, "{line}").unwrap();
         }
     }
     writeln!(out.cases, "{case}").unwrap();
@@ -468,6 +544,7 @@ fn main() {
     let mut out = Out {
         cases: std::io::BufWriter::new(std::fs::File::create(format!("{outdir}/cases.txt")).unwrap()),
         obs: std::io::BufWriter::new(std::fs::File::create(format!("{outdir}/impl.txt")).unwrap()),
+        ops: std::io::BufWriter::new(std::fs::File::create(format!("{outdir}/ops.txt")).unwrap()),
     };
     match mode.as_str() {
         "random" => {
@@ -516,10 +593,25 @@ fn main() {
                 }
             }
         }
+        "replay" => {
+            let input = std::fs::read_to_string(get("--in", "cases.txt")).unwrap();
+            for l in input.lines() {
+                let toks: Vec<&str> = l.split_whitespace().collect();
+                if toks.len() < 3 {
+                    continue;
+                }
+                let mask: u32 = toks[1].parse().unwrap();
+                let n0: u32 = toks[2].parse().unwrap();
+                let ops = parse_ops(&toks[3..]);
+                let mut it = ops.into_iter();
+                run_case(toks[0], mask, n0, &mut |_, _| it.next(), &mut out);
+            }
+        }
         _ => panic!("unknown mode"),
     }
     out.cases.flush().unwrap();
     out.obs.flush().unwrap();
+    out.ops.flush().unwrap();
     let _ = NULL_DART_ID;
     let _: Option<DartIdType> = None;
 }
